@@ -34,6 +34,7 @@ ASSUMPTIONS = ["virtual clock; verdict on virtual instants (+-1 us)",
 REQUIRED_OBS = ["heartbeats_compared", "timeout_resets_predicted_and_seen",
                 "never_answered_from_start", "all_answered_no_reset", "custom_configs",
                 "reset_after_previous_reset", "after_init_shutdown_cycle",
+                "after_a_failed_init_and_shutdown",
                 "ticks_while_link_down", "heartbeats_after_a_skipped_tick", "chatter_frames",
                 "initialised_after_init_gave_up", "two_clients_in_one_process", "application_version_requests",
                 "tick_with_full_queue"]
@@ -132,11 +133,13 @@ def cases(tier, seed):
     for i in range(n):
         yield {"gen": rnd.choice((4, 5)), "mode": "api",
                "pattern": [rnd.choice(delays) for _ in range(N)],
-               "cycle": i % 3 == 0, "vary_version": i % 2 == 0, "chatter": i % 4 == 1}
+               "cycle": ("failed" if i % 6 == 0 else True) if i % 3 == 0 else False,
+               "vary_version": i % 2 == 0, "chatter": i % 4 == 1}
     for gen in (4, 5):
         for pat in ([None] * N, [0.0] * N, [45.0, None, 0.0] * 4):
             yield {"gen": gen, "mode": "api", "pattern": pat, "cycle": True,
                    "vary_version": True}
+            yield {"gen": gen, "mode": "api", "pattern": pat, "cycle": "failed"}
             # the console keeps sending other frames (status, error text, names, unknown
             # extended ids) while it does not answer heartbeats: only a console-version
             # response counts
@@ -322,8 +325,16 @@ def run_api(case):
             w.console.frame_version = frame_version
         if case.get("cycle"):
             # an earlier init -> steady state -> shutdown on the same object
-            ok0 = await w.init()
-            await asyncio.sleep(412.5)
+            if case["cycle"] == "failed":
+                # ... or an init() that gave up against a silent console (nothing was ever
+                # started), shut down before the console answers again
+                w.console.knobs.silent_from = 0
+                ok0 = await w.init()
+                await asyncio.sleep(1.5)
+                w.console.knobs.silent_from = None
+            else:
+                ok0 = await w.init()
+                await asyncio.sleep(412.5)
             await w.at.shutdown()
             await asyncio.sleep(77.25)
             base_n[0] = w.console.heartbeats
@@ -422,6 +433,8 @@ def run_api(case):
         obs["never_answered_from_start"] = 1
     if case.get("cycle") and not viol:
         obs["after_init_shutdown_cycle"] = 1
+        if case["cycle"] == "failed":
+            obs["after_a_failed_init_and_shutdown"] = 1
     for x in viol:
         x["log"] = H.log_slice(log, 30)
     return viol, obs
